@@ -599,6 +599,7 @@ def load(repo: str = REPO, use_cache: bool = True) -> Headers:
         try:
             with open(cpath, "rb") as f:
                 h = Headers(pickle.load(f))
+            h.repo = repo           # the cache is keyed by header content, not by location
             _MEMO[repo] = h
             return h
         except Exception:
